@@ -34,6 +34,29 @@ def programs(tier="quick", step=None):
     for fam, g in gens:
         for c in g():
             add(fam, c["src"], c.get("modules"))
+    # LIBTOP: library modules whose top-level code keeps values in registers, with no / trivial / ordinary functions
+    k = 0
+    for nlib in (1, 2):
+        for nreg in (1, 2, 3):
+            for fk in ("none", "noparam", "param"):
+                for main_regs in (False, True):
+                    mods = {}
+                    imp = ""
+                    calls = ""
+                    for li in range(nlib):
+                        mn = "lb%d" % li
+                        body = "".join(f"g{j} = d{(j + li) % 6}.Setting\n" for j in range(nreg)) + "db.On = " + " + ".join(f"g{j}" for j in range(nreg)) + "\n"
+                        if fk == "noparam":
+                            body += "def ping():\n    db.Mode = g0\n"
+                            calls += f"{mn}.ping()\n{mn}.ping()\n"
+                        elif fk == "param":
+                            body += "def ping(a):\n    t = a + g0\n    db.Mode = t\n"
+                            calls += f"{mn}.ping(1)\n{mn}.ping(2)\n"
+                        mods[mn] = body
+                        imp += f"from library import {mn}\n"
+                    main = imp + ("x = d0.Setting\ny = d1.Setting\ndb.Setting = x + y\n" if main_regs else "db.Setting = 1\n") + calls
+                    add("LIBTOP", main, mods)
+                    k += 1
     # the repository's own test cases, examples and library scripts
     repo = os.environ.get("PYTRAPIC_REPO", "/repo")
     for f in sorted(glob.glob(repo + "/test/cases/*.py")) + sorted(glob.glob(repo + "/src/stationeers_pytrapic/examples/*.py")):
